@@ -30,13 +30,17 @@ def run(ctx):
     ctx.cov['states'] -= rp['distinct']; ctx.cov['transitions'] -= rp['generated']
     if not rp['violated']:
         raise vlib.Infra('spec self-test failed: the prefix variant violates nothing')
+    rk = ctx.tlc('pipeline', 'Pipeline', 'MC_Pipeline_shortkey.cfg', workers=4, timeout=600, name='shortkey variant (prerequisites ticked off by short name; must violate StartsAfterPrereqs)')
+    ctx.cov['states'] -= rk['distinct']; ctx.cov['transitions'] -= rk['generated']
+    if 'StartsAfterPrereqs' not in rk['violated']:
+        raise vlib.Infra('spec self-test failed: the shortkey variant does not violate StartsAfterPrereqs')
     tf = ctx.tmp('c14.ndjson')
     g = ctx.vh(['piptrace', '--out', tf, '--n', '250' if q else '5000', '--seed', str(ctx.seed)], timeout=3000)
     v = vlib.validate_trace(ctx, 'pipeline', 'Trace_Pipeline', 'Trace_Pipeline.cfg', tf, what='real task graphs',
                             key_of=lambda e: 'trace:%s' % e.get('ev'), timeout=3000)
     ctx.cov['evaluations'] += v['events']
     ctx.cov['distinct_nontrivial'] = v['histories']
-    ctx.cov['rule'] = 'one history = a random task graph (names, wait lists, failing commands, durations by seed) run by the real runner'
+    ctx.cov['rule'] = 'one history = a random task graph (names -- every second graph with namespaces and equal short names --, wait lists with repeated names, failing commands, durations by seed) run by the real runner'
     with open(tf) as f:
         for i, line in enumerate(f):
             if i in (1, 3):
